@@ -403,6 +403,13 @@ def splice_fn(text, spec):
         if n >= len(lp):
             raise ExtractError("lost anchor: loop %d not found (function has %d loops)" % (n, len(lp)))
         edits.append((lp[n], lp[n], "\n" + txt.rstrip() + "\n"))
+    for n, nm in spec.get("iters", {}).items():
+        # R-sig: name the iterator of a `for PAT in EXPR` loop (Verus ghost syntax `for PAT in nm: EXPR`)
+        hdr = [m for m in re.finditer(r"\b(while|for|loop)\b", msk[body + 1:end])]
+        if n >= len(hdr) or hdr[n].group(1) != "for":
+            raise ExtractError("lost anchor: loop %d is not a for loop" % n)
+        im = re.compile(r"\bin\b").search(msk, body + 1 + hdr[n].end())
+        edits.append((im.end(), im.end(), " %s:" % nm))
     for k, rx, txt, where in spec.get("ats", []):
         hits = [m for m in re.finditer(rx, msk[body + 1:end])]
         if len(hits) < k:
@@ -519,7 +526,7 @@ def build_unit(template_path, repo, canary=False):
                 rename = am.group(1)
                 toks = toks[:am.start()]
             relfile, path = toks.split(None, 1)
-            spec = dict(ret=None, sig="", loops={}, ats=[], rename=rename, closures=[])
+            spec = dict(ret=None, sig="", loops={}, ats=[], rename=rename, closures=[], iters={})
             i += 1
             section = None
             buf = []
@@ -553,6 +560,9 @@ def build_unit(template_path, repo, canary=False):
                         section = ("sig",)
                     elif dd.startswith("loop "):
                         section = ("loop", int(dd.split()[1]))
+                        lm = re.search(r"\biter\s+(\w+)", dd)
+                        if lm:
+                            spec["iters"][int(dd.split()[1])] = lm.group(1)
                     elif dd.startswith("closure "):
                         mm = re.match(r"closure\s+(\d+)\s+/(.*)/\s+(\w+)\s*:\s*(.+)$", dd)
                         if not mm:
